@@ -53,6 +53,13 @@ NS_TYPES = {
     NS_METADATA: [1, 2, 3, 4], NS_SIGNPOST: [s | i for s in (0x40, 0x80, 0xc0) for i in (0, 1, 2)], NS_LOSS: [0],
 }
 SIGNPOST_FLAG_BITS = [1, 2, 4, 8, 0x10, 0x80]
+PC_STYLE_NAMES = ['none', 'main_exe', 'shared_cache', 'main_plugin', 'absolute', 'uuid_relative', 'large_shared_cache', '_unused7']
+_LEVELS = {0: 'default', 1: 'info', 2: 'debug', 0x10: 'error', 0x11: 'fault'}
+TYPE_NAMES = {NS_ACTIVITY: {1: 'create', 2: 'swap', 3: 'useraction'}, NS_TRACE: _LEVELS, NS_LOG: _LEVELS,
+              NS_METADATA: {1: 'dyld', 2: 'subsystem', 3: 'kext', 4: 'coprocessor'}}
+SIGNPOST_TYPE_MEMBERS = {'event': 0, 'interval_begin': 1, 'interval_end': 2, 'scope_thread': 0x40, 'scope_process': 0x80, 'scope_system': 0xc0}
+LOG_FLAG_MEMBERS = {'has_private_data': 1, 'has_subsystem': 2, 'has_rules': 4, 'has_oversize': 8, 'has_context_data': 0x10}
+SIGNPOST_FLAG_MEMBERS = dict(LOG_FLAG_MEMBERS, has_name=0x80)
 
 
 def ns_flag_values(ns):
@@ -103,6 +110,25 @@ def check_identifier(ti, tup, code, V):
         bad('pc_style', ti.pc_style, pc)
     if ti.code != code:
         bad('code', ti.code, code)
+    # names: a decoded member must carry the name the format gives to that value / bit
+    if hasattr(ti.pc_style, 'name') and ti.pc_style.name != PC_STYLE_NAMES[pc]:
+        bad('pc_style-name', ti.pc_style.name, PC_STYLE_NAMES[pc])
+    if ns in TYPE_NAMES and hasattr(ti.type_, 'name') and ti.type_.name != TYPE_NAMES[ns][ty]:
+        bad('type-name', ti.type_.name, TYPE_NAMES[ns][ty])
+    if ns == NS_SIGNPOST and hasattr(type(ti.type_), '__members__'):
+        for nm, val in SIGNPOST_TYPE_MEMBERS.items():
+            mem = type(ti.type_).__members__.get(nm)
+            if mem is None or int(mem.value) != val:
+                bad('signpost-type-member', (nm, getattr(mem, 'value', None)), val)
+    if ti.flags is not None and hasattr(type(ti.flags), '__members__'):
+        table = LOG_FLAG_MEMBERS if ns == NS_LOG else SIGNPOST_FLAG_MEMBERS if ns == NS_SIGNPOST else None
+        if table:
+            for nm, bit in table.items():
+                mem = type(ti.flags).__members__.get(nm)
+                if mem is None or int(mem.value) != bit:
+                    bad('flag-member', (nm, getattr(mem, 'value', None)), bit)
+                if bool(ti.flags & mem) != bool(fl & bit):
+                    bad('flag-bit:' + nm, bool(ti.flags & mem), bool(fl & bit))
     if ti.flags is None:
         if ns == NS_LOG:
             bad('flags', None, fl)
